@@ -1492,6 +1492,8 @@ def tytext_cases(rng, tier, add):
         toks = fixed[k] if k < len(fixed) else gen_type_tokens(r, r.range(0, 4))
         if k >= len(fixed) and r.chance(1, 4) and toks:
             for _ in range(r.range(1, 2)):
+                if not toks:
+                    break
                 j = r.below(len(toks))
                 q = r.below(3)
                 alt = r.choice([1, 2, 4, 4, 5, 6, 7, 8, (3, r.choice(POWS)), (10, 1)])
